@@ -430,11 +430,14 @@ class Slicer:
     def _default_slice_fn(*args):
       if not within_values:
         return (args,)
-      return (
-          arg
+      # A row belongs to the (crossed) slice only when every feature value is
+      # within the values requested for that feature.
+      if all(
+          arg in within_value
           for arg, within_value in zip(args, within_values, strict=True)
-          if arg in within_value
-      )
+      ):
+        return (args,)
+      return ()
 
     slice_fn = slice_fn or _default_slice_fn
 
